@@ -2055,7 +2055,8 @@ def run(real_ctx):
         _timed(ctx, 'hashmap_part', hashmap_part, ctx, nseq=36, nops=60)
     else:
         _timed(ctx, 'sweep_part', sweep_part, ctx, chk, [(1, 1), (2, 1), (1, 2), (2, 2), (3, 1), (3, 2), (1, 3)], [0, 1])
-        _timed(ctx, 'walk_part', walk_part, ctx, chk, [(1, 1, 4, [[], [(1, 1), (0, 0)]], [0, 1]),
+        _timed(ctx, 'walk_part', walk_part, ctx, chk, [(1, 1, 4, [[], [(1, 1), (0, 0)]], [0]),
+                             (1, 1, 3, [[], [(0, 1)]], [1]),
                              (2, 1, 2, [[], [(1, 1)]], [0, 1]),
                              (1, 2, 3, [[], [(0, 1)]], [0, 1]),
                              (2, 2, 2, [[], [(1, 0)]], [0]),
